@@ -756,7 +756,16 @@ pub fn gen_trait(t: &mut Tape, name: &str, cfg: &TraitGenCfg) -> TraitSrc {
                 };
                 let mgen = if cfg.generics && t.chance(1, 6) { "<V: Clone>".to_string() } else { String::new() };
                 let mwhere = if cfg.generics && t.chance(1, 10) { " where Self: Sized".to_string() } else { String::new() };
-                let body = if cfg.default_bodies && t.chance(1, 5) { Some("{ unimplemented!() }".to_string()) } else { None };
+                // (a default body may begin with inner attributes)
+                let body = if cfg.default_bodies && t.chance(1, 5) {
+                    Some(match t.weighted(&[4, 1, 1]) {
+                        0 => "{ unimplemented!() }".to_string(),
+                        1 => "{ #![allow(unused_variables)] unimplemented!() }".to_string(),
+                        _ => "{ //! inner doc of the body\n #![allow(unreachable_code)] unimplemented!() }".to_string(),
+                    })
+                } else {
+                    None
+                };
                 items.push(TraitItemSrc::Method(TraitMethodSrc {
                     attrs: if cfg.method_attrs { gen_attrs(t, 2) } else { vec![] },
                     quals,
